@@ -94,7 +94,54 @@ def load(chk: Check, tier: str) -> List[Dict[str, Any]]:
     return recs
 
 
+FUZZ_DOCS = [[{"a": True}, {"a": 1}, {"a": 1e16}, {"a": 15.0}, {"a": "a", "b": [1]}, {"b": 2}, [1, [2]], "s", 1, None, False, {}],
+             {"a": [1, 2, {"a": 1, "b": {"a": "b"}}], "b": "a", "1": 1, "é": None}]
+
+
+def fuzz_roundtrip(s: List[str]) -> List[Tuple[str, Dict[str, Any], str]]:
+    """Accepted fuzzed strings (no AST): the string form must compile, be a fixed point and return what the original returns."""
+    import copy
+
+    import jsonpath
+
+    text = "".join({"EACUTE": "\u00e9", "SUPER2": "\u00b2"}.get(x, x) for x in s)
+    try:
+        p1 = jsonpath.compile(text)
+    except BaseException:  # noqa: BLE001
+        return []
+    try:
+        t1 = str(p1)
+        p2 = jsonpath.compile(t1)
+    except BaseException as e:  # noqa: BLE001
+        return [(f"fuzzed:string-form-does-not-compile-{exc_family(e)}", {"query": text, "string_form": locals().get("t1")}, f"{type(e).__name__}: {e}")]
+    t2 = str(p2)
+    if t2 != t1:
+        return [("fuzzed:not-a-fixed-point", {"query": text, "string_form": t1, "string_form_of_recompiled": t2}, "str(compile(str(p))) != str(p)")]
+    for d in FUZZ_DOCS:
+        def ev(p: Any) -> Any:
+            try:
+                return [canon(tag(v)) for v in p.findall(copy.deepcopy(d), filter_context={"a": 1})]
+            except BaseException as e:  # noqa: BLE001
+                return "raised-" + exc_family(e)
+        if ev(p1) != ev(p2):
+            return [("fuzzed:string-form-selects-other-values", {"query": text, "string_form": t1, "doc": d}, "original and string form disagree")]
+    return []
+
+
 def run(chk: Check, tier: str, seed: int) -> None:
+    from . import c06
+
+    fuzz: List[List[str]] = []
+    for lang, n, mode in (("path", 2 if tier == "quick" else 3, "soup"), ("path", 0, "mutants")):
+        r = tlc("MC_Soup", c06.GEN.format(lang=lang, n=n, mode=mode), timeout=3000)
+        chk.add_tlc(r)
+        fuzz += [x["s"] for x in r.records]
+    nacc = 0
+    for res in core.pmap(fuzz_roundtrip, fuzz):
+        chk.traces += 1
+        for sig, case, what in res:
+            chk.violation(sig, case, what)
+    chk.extra["fuzzed_strings_tried"] = len(fuzz)
     recs = load(chk, tier)
     for rec, res in zip(recs, core.pmap(replay, recs)):
         chk.traces += len(texts_of(rec))
